@@ -175,6 +175,14 @@ fn boundaries(i: u64, st: &mut Stats) -> CaseResult {
     let k = (j / 7) as u32;
     let base: i128 = 1i128 << k;
     let v = base + d;
+    if i == 0 {
+        // the documented range of Int, as published constants
+        use minicbor::data::{MAX_INT, MIN_INT};
+        ensure!(i128::from(MAX_INT) == (1i128 << 64) - 1, "int-range", "MAX_INT is {}, the data model's largest integer is 2^64-1", i128::from(MAX_INT));
+        ensure!(i128::from(MIN_INT) == -(1i128 << 64), "int-range", "MIN_INT is {}, the data model's smallest integer is -2^64", i128::from(MIN_INT));
+        ensure!(Int::try_from(i128::from(MAX_INT) + 1).is_err() && Int::try_from(i128::from(MIN_INT) - 1).is_err(), "int-range", "Int accepts a value outside [MIN_INT, MAX_INT]");
+        ensure!(Int::try_from(i128::from(MAX_INT)).ok() == Some(MAX_INT) && Int::try_from(i128::from(MIN_INT)).ok() == Some(MIN_INT), "int-range", "MIN_INT / MAX_INT do not convert back to themselves");
+    }
     if v < 0 || v > u64::MAX as i128 { return Ok(()) }
     let arg = v as u64;
     if w < W::min_for(arg) { return Ok(()) }
